@@ -11366,6 +11366,124 @@ func ruleQueueConsumed(c *Ctx) {
 		}
 	}
 	c.Floor("block queues the server's own methods put into", len(qs), 2)
+
+	// A queue built over the state-sync module asks the module for its block height on every wake-up, and the module
+	// knows that height from the block stage on only (the accessor panics before): such a queue is started under the
+	// module's own NeedBlocks answer, never unconditionally (my first repair of finding 105 started it in Server.Start
+	// and was reported as a panic by the round-8 C20 agent).
+	overSync := map[string]bool{}
+	for _, fd := range c.P.AllFuncDecls() {
+		if fd.Pkg != pk || fd.Decl.Body == nil {
+			continue
+		}
+		ast.Inspect(fd.Decl.Body, func(x ast.Node) bool {
+			as, ok := x.(*ast.AssignStmt)
+			if !ok || len(as.Lhs) != 1 || len(as.Rhs) != 1 {
+				return true
+			}
+			q, ok := fieldOf(as.Lhs[0])
+			if !ok {
+				return true
+			}
+			if call, ok := ast.Unparen(as.Rhs[0]).(*ast.CallExpr); ok && len(call.Args) > 0 {
+				// the adapter handed to bqueue.New answers Height() with the module's BlockHeight()
+				if nt, ok := info.TypeOf(call.Args[0]).(*types.Named); ok {
+					if hd := c.P.Func("pkg/network", nt.Obj().Name(), "Height"); hd != nil && hd.Decl.Body != nil {
+						ast.Inspect(hd.Decl.Body, func(y ast.Node) bool {
+							if se, ok := y.(*ast.SelectorExpr); ok && se.Sel.Name == "BlockHeight" && strings.HasSuffix(types.ExprString(se.X), "stateSync") {
+								overSync[q] = true
+							}
+							return true
+						})
+					}
+				}
+			}
+			return true
+		})
+	}
+	c.Floor("queue-consumed.queues over the state-sync module", len(overSync), 1)
+	mentionsNeedBlocks := func(fd *FuncDecl, e ast.Expr) bool {
+		hit := false
+		ast.Inspect(e, func(x ast.Node) bool {
+			switch y := x.(type) {
+			case *ast.SelectorExpr:
+				if y.Sel.Name == "NeedBlocks" {
+					hit = true
+				}
+			case *ast.Ident:
+				// a local bound to the answer
+				if o := info.ObjectOf(y); o != nil {
+					ast.Inspect(fd.Decl.Body, func(z ast.Node) bool {
+						if as, ok := z.(*ast.AssignStmt); ok && len(as.Lhs) == len(as.Rhs) {
+							for i, l := range as.Lhs {
+								if id, ok := l.(*ast.Ident); ok && info.ObjectOf(id) == o && strings.Contains(types.ExprString(as.Rhs[i]), "NeedBlocks()") {
+									hit = true
+								}
+							}
+						}
+						return true
+					})
+				}
+			}
+			return true
+		})
+		return hit
+	}
+	nStarts := 0
+	for _, fd := range c.P.AllFuncDecls() {
+		if fd.Pkg != pk || fd.Decl.Body == nil {
+			continue
+		}
+		var stack []ast.Node
+		ast.Inspect(fd.Decl.Body, func(x ast.Node) bool {
+			if x == nil {
+				stack = stack[:len(stack)-1]
+				return true
+			}
+			stack = append(stack, x)
+			gs, ok := x.(*ast.GoStmt)
+			if !ok {
+				return true
+			}
+			se, ok := ast.Unparen(gs.Call.Fun).(*ast.SelectorExpr)
+			if !ok || se.Sel.Name != "Run" {
+				return true
+			}
+			q, ok := fieldOf(se.X)
+			if !ok || !overSync[q] {
+				return true
+			}
+			nStarts++
+			gated := false
+			for i := len(stack) - 2; i >= 0 && !gated; i-- {
+				switch p := stack[i].(type) {
+				case *ast.IfStmt:
+					if stack[i+1] == ast.Node(p.Body) && mentionsNeedBlocks(fd, p.Cond) {
+						gated = true
+					}
+				case *ast.BlockStmt:
+					for _, st := range p.List {
+						if st == stack[i+1] {
+							break
+						}
+						if is, ok := st.(*ast.IfStmt); ok && mentionsNeedBlocks(fd, is.Cond) && len(is.Body.List) > 0 {
+							if _, ok := is.Body.List[len(is.Body.List)-1].(*ast.ReturnStmt); ok {
+								gated = true
+							}
+						}
+					}
+				}
+			}
+			key := fmt.Sprintf("queue-consumed.%s.started-in-stage.%s", q, fd.Decl.Name.Name)
+			if gated {
+				c.OK(key, c.P.Pos(gs.Pos()), "the queue over the state-sync module is started under the module's NeedBlocks answer")
+			} else {
+				c.Fail(key, c.P.Pos(gs.Pos()), fmt.Sprintf("%s starts Server.%s - a queue whose ledger is the state-sync module - without the module's NeedBlocks answer: Queue.Run asks its ledger for the block height on every wake-up, and the module does not know (and panics on) that height before its block stage", fd.Decl.Name.Name, q))
+			}
+			return true
+		})
+	}
+	c.Floor("queue-consumed.starts of queues over the state-sync module", nStarts, 1)
 }
 
 // ---------------------------------------------------------------------------
